@@ -226,6 +226,17 @@ theorem covered_locations :
      ("File", "CalcChain"), ("CalcChain", "C"), ("ContentTypes", "list"), ("Drawing", "anchors")].all
       (fun x => !allowedUnguarded.contains x) = true := by decide
 
+/-- **finding_contentTypes_lazy_init_unguarded** (*no data race* clause fails on
+opened workbooks): `AddPicture` reads and writes the pointer `File.ContentTypes`
+(lazy decode in `contentTypesReader`) without holding `File.mu`, so two first
+`AddPicture` calls conflict on it with no common lock — the model predicts the
+race the detector reports (`race:File.ContentTypes:AddPicture|AddPicture`). The
+location is therefore in `notCovered`, not in the proved set. `NewFile` preloads
+the pointer, `OpenReader` does not. -/
+theorem finding_contentTypes_lazy_init_unguarded :
+    Impl.predictsRace ("File", "ContentTypes") "AddPicture" "AddPicture" = true ∧
+    (Impl.unguarded "AddPicture").contains ("File", "ContentTypes") = true := by decide +kernel
+
 /-! ### critical sections of the setters (linearization points) -/
 
 /-- number of separate critical sections of `g` in which `x` is written -/
